@@ -259,16 +259,23 @@ static void mpi_funnelled_normalize_params(void)
     if( parsec_param_comm_mpi_dynamic_requests <= 0 ) {
         parsec_param_comm_mpi_dynamic_requests = MPI_FUNNELLED_DYNAMIC_REQ_DEFAULT;
     }
+    if( parsec_param_comm_mpi_dynamic_requests < 2 ) {
+        parsec_warning("runtime_comm_mpi_dynamic_requests (%d) is too small: one slot must remain available to sends; using 2.",
+                       parsec_param_comm_mpi_dynamic_requests);
+        parsec_param_comm_mpi_dynamic_requests = 2;
+    }
     if( parsec_param_comm_mpi_dynamic_recv_requests <= 0 ) {
         parsec_param_comm_mpi_dynamic_recv_requests = parsec_param_comm_mpi_dynamic_requests / 2;
         if( parsec_param_comm_mpi_dynamic_recv_requests <= 0 ) {
             parsec_param_comm_mpi_dynamic_recv_requests = 1;
         }
     }
-    if( parsec_param_comm_mpi_dynamic_recv_requests > parsec_param_comm_mpi_dynamic_requests ) {
-        parsec_warning("runtime_comm_mpi_dynamic_recv_requests (%d) is larger than runtime_comm_mpi_dynamic_requests (%d); capping it.",
+    /* Receives wait for a send the peer can only post in one of its own dynamic slots: if receives were allowed to
+     * fill every slot on both sides, none of those sends could ever be posted. Always keep one slot for sends. */
+    if( parsec_param_comm_mpi_dynamic_recv_requests >= parsec_param_comm_mpi_dynamic_requests ) {
+        parsec_warning("runtime_comm_mpi_dynamic_recv_requests (%d) must be smaller than runtime_comm_mpi_dynamic_requests (%d); capping it.",
                        parsec_param_comm_mpi_dynamic_recv_requests, parsec_param_comm_mpi_dynamic_requests);
-        parsec_param_comm_mpi_dynamic_recv_requests = parsec_param_comm_mpi_dynamic_requests;
+        parsec_param_comm_mpi_dynamic_recv_requests = parsec_param_comm_mpi_dynamic_requests - 1;
     }
 }
 
